@@ -182,7 +182,8 @@ def install(reg):
         if name == 'lstrip':
             return lambda I, o, a, k: lstrip(o, a[0] if a else None)
         if name == 'strip':
-            return lambda I, o, a, k: o
+            # strip(chars): the given characters are removed from the concrete ends (an atom at an end is assumed not to start / end with them)
+            return lambda I, o, a, k: (rstrip(lstrip(o, a[0]), a[0]) if a and isinstance(a[0], str) else o)
         if name == 'upper':
             return lambda I, o, a, k: o if all(not isinstance(t, str) or t.upper() == t for t in flat(o)) else OpaqueStr(['upper', o])
         if name == 'startswith':
